@@ -94,6 +94,9 @@ func (w *World) mapBodyOrderDependent(fn *ssa.Function, lp *Loop, next *ssa.Next
 								if mu, ok := ref.(*ssa.MapUpdate); ok && mu.Key == keyVal {
 									continue
 								}
+								if _, ok := ref.(*ssa.DebugRef); ok {
+									continue
+								}
 								if _, ok := ref.(*ssa.Phi); ok {
 									// inner slice loop accumulating for the same key
 									continue
